@@ -185,7 +185,7 @@ def all_actions(n):
         acts.append({"ev": "insert", "k": k})
     acts.append({"ev": "insert", "k": n + 1, "add": True})
     if n >= 2:
-        for keep in ([1], [n], list(range(1, n + 1))):
+        for keep in ([1], [n], list(range(1, n + 1)), list(range(n, 0, -1))[:max(1, n - 1)]):
             acts.append({"ev": "ptrace", "keep": keep, "d": 2})
     acts.append({"ev": "tensor", "_others_rows": [MINUS1]})
     acts.append({"ev": "tensor", "_others_rows": [BELLM, ZERO1]})
@@ -253,7 +253,7 @@ def random_event(rng, n, max_n):
     if r < 0.90 and n >= 2:
         return {"ev": "remove", "a": q, "d": rng.choice([0, 1, 2])}
     if r < 0.93 and n >= 3:
-        keep = sorted(rng.sample(range(1, n + 1), rng.randint(1, n - 1)))
+        keep = rng.sample(range(1, n + 1), rng.randint(1, n - 1))          # listed in any order: a keep list is a set
         return {"ev": "ptrace", "keep": keep, "d": 2}
     if r < 0.96 and n + 1 <= max_n:
         return {"ev": "tensor", "_others_rows": [rng.choice([ZERO1, MINUS1])]}
